@@ -45,9 +45,26 @@ pub struct Sc {
     pub consistent: bool,
     pub roots: Vec<RootEp>,
     pub cycles: Vec<Cycle>,
+    /// every timestamp, snapshot and targets document carries an unknown member whose string
+    /// value is awkward to store and read back (0 = no such member): line feed, tab and other
+    /// control characters, quote and backslash, non-ASCII
+    #[serde(default)]
+    pub note: u8,
 }
 
 pub struct C03;
+
+fn with_note(mut signed: crate::json::J, note: u8) -> crate::json::J {
+    let text = match note {
+        0 => return signed,
+        1 => "signed by release-bot\nbatch 7",
+        2 => "col1\tcol2\u{1}end\r\n",
+        3 => "quote \" backslash \\ and \u{e9}\u{4e16}",
+        _ => "\u{1f}\u{0}x",
+    };
+    signed.set("x-release-note", crate::json::s(text));
+    signed
+}
 
 pub fn role_keys(world: u64, role: u64, a: &Auth) -> RoleKeys {
     RoleKeys {
@@ -74,7 +91,7 @@ pub struct State {
 }
 
 /// Files of one repository state, signed with the keys the given root authorises.
-pub fn build_state(world: u64, consistent: bool, roots: &[RootEp], c: &Cycle) -> Files {
+pub fn build_state(world: u64, consistent: bool, roots: &[RootEp], c: &Cycle, note: u8) -> Files {
     let root = root_spec(world, consistent, roots, c.root_epoch);
     let mut files = Files::new();
     for i in 0..=c.root_epoch {
@@ -82,7 +99,7 @@ pub fn build_state(world: u64, consistent: bool, roots: &[RootEp], c: &Cycle) ->
         let d = Doc::signed_by(r.signed(), &[keys::ed(world, 1)]);
         files.meta.insert(format!("{}.root.json", i + 1), d.bytes());
     }
-    let tg = sign_threshold(targets_signed(c.tg_v, FAR, &[], None), &root.targets);
+    let tg = sign_threshold(with_note(targets_signed(c.tg_v, FAR, &[], None), note), &root.targets);
     let tgb = tg.bytes();
     let mut metas = Vec::new();
     if !c.drop_listing {
@@ -90,9 +107,9 @@ pub fn build_state(world: u64, consistent: bool, roots: &[RootEp], c: &Cycle) ->
         let m = if c.listed_v == c.tg_v { Meta::of(c.listed_v, &tgb, true, true) } else { Meta { version: c.listed_v, length: None, sha256: None } };
         metas.push(("targets.json".to_string(), m));
     }
-    let sn = sign_threshold(snapshot_signed(c.snap_v, FAR, &metas), &root.snapshot);
+    let sn = sign_threshold(with_note(snapshot_signed(c.snap_v, FAR, &metas), note), &root.snapshot);
     let snb = sn.bytes();
-    let ts = sign_threshold(timestamp_signed(c.ts_v, FAR, &Meta::of(c.snap_v, &snb, true, true)), &root.timestamp);
+    let ts = sign_threshold(with_note(timestamp_signed(c.ts_v, FAR, &Meta::of(c.snap_v, &snb, true, true)), note), &root.timestamp);
     files.meta.insert("timestamp.json".into(), ts.bytes());
     if consistent {
         files.meta.insert(format!("{}.snapshot.json", c.snap_v), snb);
@@ -154,7 +171,7 @@ impl Check for C03 {
         "C03"
     }
     fn rule(&self) -> String {
-        "history of 2..4 update cycles on one datastore; per cycle (timestamp, snapshot, targets, snapshot-listed targets) versions drawn independently from 1..3, all genuinely signed; 1..4 root versions whose timestamp/snapshot/targets key sets or thresholds change (incl. rotate-and-rotate-back); shipped root older than or equal to the newest; consistent snapshots on/off; non-trivial = some cycle ran with a stored file of an earlier cycle in the datastore and served a version different from it; distinct = distinct canonical trace".into()
+        "history of 2..4 update cycles on one datastore; per cycle (timestamp, snapshot, targets, snapshot-listed targets) versions drawn independently from 1..3, all genuinely signed; 1..4 root versions whose timestamp/snapshot/targets key sets or thresholds change (incl. rotate-and-rotate-back); shipped root older than or equal to the newest; consistent snapshots on/off; in a third of the histories every document carries an unknown member whose string holds control characters, quotes, backslashes or non-ASCII (what is stored must read back); non-trivial = some cycle ran with a stored file of an earlier cycle in the datastore and served a version different from it; distinct = distinct canonical trace".into()
     }
     fn assumptions(&self) -> Vec<String> {
         vec![
@@ -232,7 +249,8 @@ impl Check for C03 {
                 drop_listing: r.chance(1, 25),
             });
         }
-        Sc { world: r.below(1_000_003), consistent: r.chance(1, 2), roots, cycles }
+        let note = if r.chance(1, 3) { 1 + r.below(4) as u8 } else { 0 };
+        Sc { world: r.below(1_000_003), consistent: r.chance(1, 2), roots, cycles, note }
     }
     fn shrink(&self, sc: &Sc) -> Vec<Sc> {
         let mut v = Vec::new();
@@ -245,6 +263,9 @@ impl Check for C03 {
         }
         if sc.consistent {
             v.push(Sc { consistent: false, ..sc.clone() });
+        }
+        if sc.note != 0 {
+            v.push(Sc { note: 0, ..sc.clone() });
         }
         // collapse root epochs: everyone uses epoch 0
         if sc.roots.len() > 1 {
@@ -301,14 +322,14 @@ impl Check for C03 {
         let scratch = Scratch::new();
         let ds = scratch.dir("datastore");
         world::set_clock(Some(T0));
-        o.ev(format!("cfg consistent={} roots={:?}", sc.consistent, sc.roots));
+        o.ev(format!("cfg consistent={} note={} roots={:?}", sc.consistent, sc.note, sc.roots));
         // (cycle index, final root epoch, versions) of successful cycles
         let mut trusted: Vec<(usize, usize, Seen)> = Vec::new();
         let mut seen = Seen { ts: 0, snap: 0, tg: 0, listed: 0 };
         let mut failed_before = false;
         let mut any_replay = false;
         for (ci, c) in sc.cycles.iter().enumerate() {
-            let files = build_state(sc.world, sc.consistent, &sc.roots, c);
+            let files = build_state(sc.world, sc.consistent, &sc.roots, c, sc.note);
             let shipped = files.meta.get(&format!("{}.root.json", c.shipped + 1)).cloned().unwrap();
             let meta = files.meta.clone();
             let transport = SimTransport::new(move |r| {
